@@ -239,6 +239,7 @@ def b6(ctx, rep, T):
             trees = [(st['fmt'], st['line']) for st in f['sites']]
             if not f['sites']:
                 trees += [(f.get('tail'), f['line'])] + [(l_.get('v'), l_.get('line', f['line'])) for l_ in f.get('lets', [])]
+            triples = []   # (subject, prefixed value, plain value, line)
             for tree, line in trees:
                 for x in vt.walk(tree):
                     if x.get('k') != 'cond' or 'is_ascii_digit' not in json.dumps(x.get('c'))[:4000]:
@@ -252,16 +253,34 @@ def b6(ctx, rep, T):
                         if y.get('k') == 'call' and y.get('f') in ('chars', 'starts_with', 'bytes', 'as_bytes') and y.get('recv') is not None:
                             subj = y['recv']
                             break
-                    if subj is None:
+                    if subj is not None:
+                        triples.append((subj, x.get('t'), x.get('e'), line))
+            # the same guard written as `match name.chars().next() { Some(c) if c.is_ascii_digit() => "_" + name, _ => name }`
+            for m in f.get('matches', []):
+                sc = vt.unvar(m.get('scrut'))
+                if not (isinstance(sc, dict) and sc.get('k') == 'call' and sc.get('f') in ('next', 'first', 'nth')):
+                    continue
+                inner = vt.unvar(sc.get('recv'))
+                if not (isinstance(inner, dict) and inner.get('k') == 'call' and inner.get('f') in ('chars', 'bytes', 'as_bytes') and inner.get('recv') is not None):
+                    continue
+                garm = [a for a in m['arms'] if 'Some' in ''.join(a.get('variants', [])) and 'is_ascii_digit' in (json.dumps(a.get('guard'))[:2000] + str(a.get('guard_text') or ''))]
+                rest = [a for a in m['arms'] if a not in garm and (a['variants'] == ['_'] or 'None' in ''.join(a.get('variants', [])) or 'Some' in ''.join(a.get('variants', [])))]
+                if len(garm) == 1 and rest:
+                    k = ('match', vt.ckey(m.get('scrut')))
+                    if k in seen:
                         continue
+                    seen.add(k)
+                    for a in rest[:1]:
+                        triples.append((inner['recv'], garm[0].get('value'), a.get('value'), garm[0].get('line', f['line'])))
+            for subj, tval, eval_, line in triples:
                     n += 1
                     sk = vt.ckey(subj)
-                    else_ok = vt.ckey(x.get('e')) == sk
-                    then_ok = any(vt.ckey(h.get('hole')) == sk for y in vt.walk(vt.unvar(x.get('t'))) if y.get('k') == 'fmt' for h in y.get('parts', []) if isinstance(h, dict) and 'hole' in h)
+                    else_ok = vt.ckey(eval_) == sk
+                    then_ok = any(vt.ckey(h.get('hole')) == sk for y in vt.walk(vt.unvar(tval)) if y.get('k') == 'fmt' for h in y.get('parts', []) if isinstance(h, dict) and 'hole' in h)
                     ok = else_ok and then_ok
                     if not f['sites']:
                         guarded_helpers[f['name'].split('::')[-1]] = ok
-                    rep.check(ok, 'B6', f"{be}:{f['name']}:digit-guard-subject", 'the tested string is the emitted string', f"{be}: {f['qual']} tests `{vt.show(subj)[:60]}` for a leading digit but emits `{vt.show(x.get('e'))[:60]}` (prefixed form: `{vt.show(x.get('t'))[:50]}`) — the guard does not protect the printed identifier: a name whose *printed* form starts with a digit is emitted as is and the target file does not parse", {'file': f['file'], 'line': line})
+                    rep.check(ok, 'B6', f"{be}:{f['name']}:digit-guard-subject", 'the tested string is the emitted string', f"{be}: {f['qual']} tests `{vt.show(subj)[:60]}` for a leading digit but emits `{vt.show(eval_)[:60]}` (prefixed form: `{vt.show(tval)[:50]}`) — the guard does not protect the printed identifier: a name whose *printed* form starts with a digit is emitted as is and the target file does not parse", {'file': f['file'], 'line': line})
     rep.floor('B6', 'leading-digit guards', n, 3)
     # (ii) coverage of the declaration sites
     decl = re.compile(r'(\bcase |\bobject |\bdata class |\bcase class |\bcase object |\bclass )_?$')
